@@ -23,7 +23,7 @@ Task: produce {n} DIFFERENT, independent changes to tonic's source (library code
 For each change i (1..{n}) deliver, under /tmp/seedout/{pid}/m<i>/ :
   - patch.diff : `git diff` of the change against the worktree's HEAD (apply-able with `git apply` at the repository root). Keep each patch minimal.
   - a demonstration: a self-contained Rust test file demo.rs together with a README.md saying exactly where to put it and how to run it (for example: "copy to tonic/tests/demo.rs (or tests/integration_tests/tests/demo.rs) and run `cargo test -p tonic --test demo --offline`"). The demonstration must FAIL with the change applied and PASS without it. It should use only public APIs of the tonic crates (and dev-dependencies the target crate already has).
-  - meta.json : {{"property": "{pid}", "summary": "<one line>", "needs": "<what specific input / schedule / configuration / sequence is needed for it to manifest>", "files": [..], "tests_run": ["<commands you ran and their result>"]}}
+  - meta.json : {{"property": "{pid}", "summary": "<one line>", "needs": "<what specific input / schedule / configuration / sequence is needed for it to manifest>", "files": [..], "demo_dest": "<path relative to the repository root where demo.rs must be copied, e.g. tests/integration_tests/tests/demo_{pid}_m1.rs>", "demo_cmd": "<exact cargo command that runs only the demo, e.g. cargo test -p integration-tests --test demo_{pid}_m1 --offline>", "tests_run": ["<commands you ran and their result>"]}}
 
 Work one change at a time: edit, build, run existing tests, write demo, confirm demo fails with the change, `git stash`/`git checkout -- .` to confirm demo passes without it, save patch.diff, then reset the worktree (`git checkout -- . && git clean -fd -e target`) before the next change. Leave the worktree clean (no uncommitted changes other than target/) when you finish. Do not commit anything.
 
